@@ -536,14 +536,28 @@ def kind(case):
 
 
 # ------------------------------------------------------------------ implementation
+_PRINTERS = {}
+
+
 def impl_run(case):
     from ak.ppobj import PrettyPrinter
     v = dec(case["v"])
     try:
-        pp = PrettyPrinter(fmt_json=(case["mode"] == "json"))
+        # one printer object per mode for the whole worker process, and a coloured rendering of
+        # the same value consumed first: what the no-colour output is must not depend on what the
+        # printer rendered before (a memory of earlier, coloured renderings is how caches go wrong)
+        pp = _PRINTERS.get(case["mode"])
+        if pp is None:
+            pp = _PRINTERS[case["mode"]] = PrettyPrinter(fmt_json=(case["mode"] == "json"))
+        coloured = pp(v)
+        str(coloured)
+        for _ in coloured:
+            pass
         r = pp(v, no_color=True)
-        text = r.plain_text()
-        lines = [ln.plain_text() for ln in r]
+        # what a user gets from the no-colour result is str(): the text as printed (plain_text()
+        # would hide an escape sequence that leaked into the no-colour output)
+        text = str(r)
+        lines = [str(ln) for ln in r]
     except Exception as e:
         return {"exc": SX.exc_name(e)}
     if not isinstance(text, str) or not all(isinstance(x, str) for x in lines):
